@@ -248,6 +248,8 @@ Definition covered (rs : list (Z * Z)) (i : Z) : bool :=
    - each begin is exactly overlap_size before the previous end,
    - with align, every begin after the first is a multiple of chunk_size-overlap_size,
    - every index of [offset, offset+size) lies in some range;
+   - minimality ("ranges ... end at input_offset+input_size": the range that
+     reaches the end is the last one, and no range is empty unless the input is);
    for an empty input there is nothing to cover and no (non-empty) range. *)
 Definition ranges_ok (size chunk offset overlap : Z) (align : bool) (rs : list (Z * Z)) : bool :=
   forallb (fun r => (fst r <=? snd r) && (snd r - fst r <=? chunk)
@@ -259,4 +261,6 @@ Definition ranges_ok (size chunk offset overlap : Z) (align : bool) (rs : list (
   && consecutive_ok overlap rs
   && (negb align
       || forallb (fun r => fst r mod (chunk - overlap) =? 0) (tl rs))
-  && forallb (covered rs) (map (fun k => offset + Z.of_nat k) (seq 0 (Z.to_nat size))).
+  && forallb (covered rs) (map (fun k => offset + Z.of_nat k) (seq 0 (Z.to_nat size)))
+  && forallb (fun r => snd r <? offset + size) (removelast rs)
+  && ((size =? 0) || forallb (fun r => fst r <? snd r) rs).
